@@ -25,7 +25,7 @@ func init() {
 	register(&Prop{
 		ID:    "C10",
 		Level: "exploration",
-		Rule:  "seed-generated inputs to NewWordList (duplicates, words present in lower-case and title-case form, title form only, chains such as {éa, Éa, ÉA}, digraph letters with a distinct title case, caseless and pre-capitalised words, multi-word entries, the empty string, non-ASCII), each constructed 32 times from the same slice and from 32 permutations / multiplicities; the kept words are read out through Generate (one-word passwords for every index) and compared with the reference normalisation; the caller's slice (with its capacity tail) is compared before/after; atoms of generated passwords are checked against the kept set; plus both shipped lists and the empty/nil input. evaluations = NewWordList constructions + generations; distinct_nontrivial = distinct inputs in which normalisation removes at least one entry",
+		Rule:  "seed-generated inputs to NewWordList (duplicates, words present in lower-case and title-case form, title form only, chains such as {éa, Éa, ÉA}, digraph letters with a distinct title case, caseless and pre-capitalised words, multi-word entries, the empty string, non-ASCII), each constructed 32 times from the same slice and from 32 permutations / multiplicities; the kept words are read out through Generate (one-word passwords for every index) and compared with the reference normalisation; the caller's slice (with its capacity tail) is compared before/after; atoms of generated passwords are checked against the kept set; plus both shipped lists and the empty/nil input. a fifth of the cases run with standard error unwritable (closed file, /dev/full). evaluations = NewWordList constructions + generations; distinct_nontrivial = distinct inputs in which normalisation removes at least one entry",
 		Assumptions: []string{
 			"reference: kept = distinct(input) minus every word that is strings.Title of another listed word",
 			"word order inside a list is read out through the public API with index scripts (no hook)",
